@@ -1133,7 +1133,7 @@ def run(ctx):
         s2c_heap(ctx, rep, parts['heap'], table, sigs, ('late', 'eager'), pick)
     lap('s2c_heap')
     if ctx.quick:
-        c2s(ctx, rep, 900, 300, 250, 200, 150)
+        c2s(ctx, rep, 900, 300, 250, 150, 100)
     else:
         c2s(ctx, rep, 6000, 2000, 2000, 2000, 2000)
     lap('c2s')
